@@ -159,9 +159,26 @@ def replay(v):
     cfg.simulation.thrown_events = 150
     cfg.detector.optical.enable = "optical=True" in job
     cfg.detector.radio.enable = "radio=True" in job
-    if "Target" in job:
-        return {"reproduced": False, "key": None, "detail": "replay implemented for diffuse runs"}
-    np.random.seed(3)
+    target_mode = "Target" in job
+    if target_mode:
+        cfg.simulation.mode = "Target"
+        cfg.simulation.spectrum.log_nu_energy = 10.0
+        cfg.simulation.thrown_events = 1500
+    if "no failure; 1 stage boundaries" in ob:
+        # the path on which no trajectory survives: only the (empty) geometry columns are stored
+        cfg.simulation.thrown_events = 1
+        cfg.simulation.angle_from_limb = 1e-9
+    seed = 3
+    if "no failure; 1 stage boundaries" in ob and not target_mode:
+        from nuspacesim.simulation.geometry.region_geometry import RegionGeom
+
+        for seed in range(200):  # a seed for which the single thrown trajectory does not survive
+            np.random.seed(seed)
+            g_ = RegionGeom(cfg)
+            g_.throw(1)
+            if not g_.event_mask.any():
+                break
+    np.random.seed(seed)
     write_stages = "disabled" not in ob
 
     class Boom(Exception):
@@ -186,6 +203,8 @@ def replay(v):
     patches = [mock.patch.object(rt, "AstropyTable", RecT)]
     if stage:
         cls, meth = STAGE_TARGETS[stage]
+        if target_mode and cls == "RegionGeom":
+            cls = "RegionGeomToO"
         calls = {"n": 0}
         target = getattr(comp, cls) if cls else comp
         orig = getattr(target, meth)
@@ -225,10 +244,11 @@ def replay(v):
             final_meta = (writes[-1][2] if writes else [])
             table_meta = []
             if raised is None:
-                table_meta = [m for m in res.meta if m.isupper() and len(m) <= 8]
-            n_bound = len(adds) + (len(table_meta) if raised is None else len(final_meta))
-            if raised is None and len(writes) != len(adds) + len(table_meta):
-                bad = f"{len(adds)} column stores + {len(table_meta)} header keywords but only {len(writes)} writes"
+                # (a NaN header value -- statistical uncertainty of a one-event run -- is not representable in FITS)
+                table_meta = [m for m in res.meta if m.isupper() and len(m) <= 8 and not (isinstance(res.meta[m][0], float) and res.meta[m][0] != res.meta[m][0])]
+            all_meta = [m for m in res.meta if m.isupper() and len(m) <= 8] if raised is None else []
+            if raised is None and len(writes) != len(adds) + len(all_meta):
+                bad = f"{len(adds)} column stores + {len(all_meta)} header keywords but {len(writes)} writes"
             seen_cols = []
             ai = 0
             for e in events:
@@ -244,6 +264,8 @@ def replay(v):
                     bad = f"file on disk has columns {t.colnames}, last completed prefix is {final_cols}"
                 if raised is None and [m for m in t.meta if m.isupper() and len(m) <= 8 and m in table_meta] != table_meta:
                     bad = f"file on disk lacks header keywords: has {[m for m in t.meta if m in table_meta]}, table has {table_meta}"
+                if not adds and not (raised is None and table_meta):
+                    bad = "a file was written although no stage had completed"
             elif adds:
                 bad = "no file on disk although stages completed"
         if bad:
